@@ -1209,3 +1209,86 @@ Proof.
     + unfold is_done in Hnd. rewrite Eg in Hnd. congruence.
     + unfold is_done in Hnd. rewrite Eg in Hnd. congruence.
 Qed.
+
+(* ---- end to end: a listed URL stays downloadable while the message exists ---- *)
+Lemma resolve_In : forall serve urls f,
+  In f (resolve serve urls) <-> f <> 0%N /\ exists u, In u urls /\ get_id_from_url serve u = f.
+Proof.
+  intros serve urls f. unfold resolve. rewrite filter_In, in_map_iff. split.
+  - intros [[u [Hu Hin]] Hnz]. split; [apply N.eqb_neq; apply negb_true_iff; exact Hnz|].
+    exists u. split; assumption.
+  - intros [Hnz [u [Hin Hu]]]. split; [exists u; split; assumption|].
+    apply negb_true_iff. apply N.eqb_neq. exact Hnz.
+Qed.
+
+Definition inv_nz (s : state) : Prop := forall f, In f (files s) -> f_id f <> 0%N.
+
+Lemma step_inv_nz : forall s o, inv_nz s -> inv_nz (step s o).
+Proof.
+  intros s o H f Hin. destruct o; cbn [step] in Hin.
+  - destruct (memN fid (file_ids s) || (fid =? 0)%N) eqn:E; [exact (H f Hin)|].
+    cbn [files] in Hin. apply in_app_iff in Hin. destruct Hin as [Hin|[Hin|[]]]; [exact (H f Hin)|].
+    subst f. cbn [f_id]. apply orb_false_iff in E. destruct E as [_ E]. apply N.eqb_neq. exact E.
+  - destruct (find_file fid (files s)) as [g|] eqn:Eg; [|exact (H f Hin)].
+    destruct (f_done g); [exact (H f Hin)|]. destruct ok.
+    + destruct (memN fid (disk s)); [|exact (H f Hin)].
+      unfold set_files in Hin. cbn [files] in Hin. apply in_map_iff in Hin. destruct Hin as [x [Hx Hin]].
+      destruct (f_id x =? fid)%N eqn:Ex; [|rewrite <- Hx; exact (H x Hin)].
+      apply N.eqb_eq in Ex. rewrite <- Hx. cbn [f_id]. rewrite <- Ex. exact (H x Hin).
+    + cbn [files] in Hin. apply filter_In in Hin. exact (H f (proj1 Hin)).
+  - destruct (memN t (topics s)); exact (H f Hin).
+  - destruct (memN u (users s)); exact (H f Hin).
+  - destruct (memN topic (topics s)); exact (H f Hin).
+  - rewrite link_single_files in Hin. exact (H f Hin).
+  - rewrite link_single_files in Hin. exact (H f Hin).
+  - exact (H f Hin).
+  - exact (H f Hin).
+  - exact (H f Hin).
+  - cbn [files] in Hin. apply filter_In in Hin. exact (H f (proj1 Hin)).
+  - destruct (is_done fid (files s)); exact (H f Hin).
+Qed.
+
+Lemma inv_nz_run : forall h, inv_nz (run h).
+Proof.
+  intros h. unfold run. assert (G : forall l s, inv_nz s -> inv_nz (fold_left step l s)).
+  { induction l as [|o l IH]; intros s Hs; [exact Hs|]. cbn [fold_left]. apply IH. apply step_inv_nz. exact Hs. }
+  apply G. intros f [].
+Qed.
+
+(* a completed upload whose bytes are present is served by every URL that yields its id *)
+Lemma download_of_done : forall s serve url,
+  get_id_from_url serve url <> 0%N -> is_done (get_id_from_url serve url) (files s) = true ->
+  In (get_id_from_url serve url) (disk s) ->
+  exists g, download s serve url = Some g /\ f_id g = get_id_from_url serve url /\ f_done g = true.
+Proof.
+  intros s serve url Hnz Hd Hdisk. unfold download, download_with.
+  apply N.eqb_neq in Hnz. rewrite Hnz. unfold is_done in Hd.
+  destruct (find_file (get_id_from_url serve url) (files s)) as [g|] eqn:Eg; [|discriminate].
+  apply memN_In in Hdisk. rewrite Hd, Hdisk. cbn [negb orb andb].
+  exists g. split; [reflexivity|]. split; [exact (proj2 (find_file_in _ _ _ Eg))|exact Hd].
+Qed.
+
+Lemma listed_url_linked : forall h1 serve topic urls h2 url,
+  let s1 := run h1 in
+  let fids := resolve serve urls in
+  memN topic (topics s1) = true ->
+  forallb (fun x => memN x (file_ids s1)) fids = true ->
+  In url urls -> is_done (get_id_from_url serve url) (files s1) = true ->
+  let mid := next_mid s1 in
+  let s2 := run (h1 ++ OPublish topic fids :: h2) in
+  target_live s2 (TMsg mid) = true ->
+  let f := get_id_from_url serve url in
+  In (f, TMsg mid) (links s2) /\ In f (file_ids s2) /\ In f (disk s2) /\
+  exists g, download s2 serve url = Some g /\ f_id g = f /\ f_done g = true.
+Proof.
+  intros h1 serve topic urls h2 url s1 fids Ht Hall Hin Hd mid s2 Hl. cbv zeta.
+  set (f := get_id_from_url serve url) in *.
+  assert (Hnz : f <> 0%N).
+  { unfold is_done in Hd. destruct (find_file f (files s1)) as [g|] eqn:Eg; [|discriminate].
+    destruct (find_file_in _ _ _ Eg) as [Hg Hid]. rewrite <- Hid. exact (inv_nz_run h1 g Hg). }
+  assert (Hf : In f fids).
+  { apply resolve_In. split; [exact Hnz|]. exists url. split; [exact Hin|reflexivity]. }
+  destruct (linked_msg h1 topic fids h2 f Ht Hall Hf Hd Hl) as [H1 [H2 [H3 H4]]].
+  split; [exact H1|]. split; [exact H2|]. split; [exact H3|].
+  exact (download_of_done s2 serve url Hnz H4 H3).
+Qed.
